@@ -236,6 +236,202 @@ class TxLineHarness(Harness):
         return out
 
 
+class RxLineHarness(Harness):
+    """(c) receive decoding: an independent reference encoder (usb_io domain) puts ONE full-speed packet of N symbolic bytes
+    on D+/D- of the real GatewarePHY: idle J, SYNC, LSB-first bytes, NRZI (0 = transition), a stuffed 0 after six 1s (the last
+    1 of SYNC counts), SE0 for two bit times, J.  A bit cell lasts four 48 MHz cycles; ONE cell of the packet (const index
+    `dcell`, any cell from the first SYNC bit to the second SE0, or none) lasts three (`dlong` = 0) or five (`dlong` = 1)
+    cycles: what a +-0.25 % line clock offset does to the edges as seen by the 48 MHz sampler over a packet of < 100 bits
+    (accumulated drift < 1 sampler cycle -> at most one cell boundary slips by one sample).  The first edge comes at usb_io step
+    BASE + sphase, sphase = 0..3 symbolic, i.e. every alignment to the 12 MHz usb clock (which ticks at steps = 0 mod 4).
+    corrupt=True: the stuffed bit number `bad_stuff` of the packet is sent as a seventh 1 (no transition) instead of a 0.
+    The monitor (usb domain = the UTMI side) sees rx_* only at usb clock edges."""
+    domains = ("usb", "usb_io")
+    BASE = 6
+    IDLE, DATA, SE0A, SE0B, DONE = range(5)
+
+    def __init__(self, nbytes=2, corrupt=False, deadline=24):
+        super().__init__()
+        from luna.gateware.interface.gateware_phy import GatewarePHY
+        self.clocks = {"usb_io": (1, 0), "usb": (4, 0)}
+        self.n = nbytes
+        self.corrupt = corrupt
+        self.deadline = deadline
+        self.io = make_io()
+        self.dut = GatewarePHY(io=self.io)
+        self.data = [self.inp(f"byte{i}", 8, const=True) for i in range(nbytes)]
+        self.sphase = self.inp("sphase", 2, const=True)      # first edge at step BASE + sphase
+        self.dcell = self.inp("dcell", 6, const=True)        # index of the one cell that is not 4 cycles long (>= #cells: none)
+        self.dlong = self.inp("dlong", 1, const=True)        # that cell lasts 5 (1) or 3 (0) cycles
+        if corrupt:
+            self.bad = self.inp("bad_stuff", 2, const=True)  # which stuffed bit of the packet becomes a seventh 1
+        names = ["byte_value", "byte_count", "valid_outside_active", "active_before_packet", "active_twice",
+                 "active_falls_before_eop", "delivered_by_deadline", "false_error", "stuff_error_reported"]
+        self.v = {n: self.viol(n) for n in names}
+        self.c = {n: self.cover(n) for n in ["delivered", "stuffed_bit", "stuff_at_packet_end", "ff_byte", "short_cell",
+                                             "long_cell", "stuff_error_reported", "deadline_worst_case"]}
+        self.a = {n: self.assume(n) for n in ["first_byte_is_pid"]}
+
+    def elaborate(self, platform):
+        m = Module()
+        m.submodules.dut = d = self.dut
+        io = self.io
+        n = self.n
+        IDLE, DATA, SE0A, SE0B, DONE = self.IDLE, self.DATA, self.SE0A, self.SE0B, self.DONE
+        m.d.comb += [d.op_mode.eq(0), d.xcvr_select.eq(1), d.term_select.eq(1), d.tx_valid.eq(0), d.tx_data.eq(0),
+                     self.a["first_byte_is_pid"].eq(self.data[0][0:4] == ~self.data[0][4:8])]
+        # ---- reference encoder (usb_io domain)
+        tcnt = Signal(range(self.BASE + 8))
+        st = Signal(3)
+        cyc = Signal(3)                 # cycles left in the current cell (including this one)
+        cell = Signal(7)                # index of the NEXT cell
+        nbyte = Signal(range(n + 3))    # position of the next data bit; byte 0 is SYNC (0x80), bytes 1..n the packet
+        nbit = Signal(3)
+        ones = Signal(3)                # consecutive 1s sent, including the current cell
+        level = Signal(init=1)          # 1 = J (D+ high), 0 = K
+        se0 = Signal()
+        stuffs = Signal(3)              # stuffed bits sent so far
+        stuffed_seen = Signal()
+        stuff_at_end = Signal()
+        corrupted = Signal()
+        used_short = Signal()
+        used_long = Signal()
+        fin = Signal(range(self.deadline + 2))
+        m.d.comb += [io.d_p.i.eq(level & ~se0), io.d_n.i.eq(~level & ~se0)]
+        m.d.usb_io += tcnt.eq(Mux(tcnt == self.BASE + 7, tcnt, tcnt + 1))
+        stream_bit = Signal()
+        with m.Switch(nbyte):
+            with m.Case(0):
+                m.d.comb += stream_bit.eq(nbit == 7)                      # SYNC = 0000 0001 on the wire (KJKJKJKK)
+            for i in range(n):
+                with m.Case(i + 1):
+                    m.d.comb += stream_bit.eq(self.data[i].bit_select(nbit, 1))
+        advance = Signal()
+        m.d.comb += advance.eq(((st == IDLE) & (tcnt == self.BASE + self.sphase)) |
+                               (((st == DATA) | (st == SE0A) | (st == SE0B)) & (cyc == 1)))
+        bad_now = Signal()
+        if self.corrupt:
+            m.d.comb += bad_now.eq(stuffs == self.bad)
+        with m.If(advance):
+            odd = Signal()
+            m.d.comb += odd.eq(cell == self.dcell)
+            m.d.usb_io += cell.eq(cell + 1)
+            with m.If((st == IDLE) | (st == DATA)):
+                m.d.usb_io += [st.eq(DATA), cyc.eq(Mux(odd, Mux(self.dlong, 5, 3), 4))]
+                with m.If(odd):
+                    m.d.usb_io += [used_short.eq(~self.dlong), used_long.eq(self.dlong)]
+                with m.If(ones == 6):
+                    # a stuffed 0 is due (also after the last data bit); the corrupting encoder sends a seventh 1 instead
+                    m.d.usb_io += [ones.eq(0), stuffs.eq(stuffs + 1)]
+                    with m.If(bad_now):
+                        m.d.usb_io += corrupted.eq(1)
+                    with m.Else():
+                        m.d.usb_io += [level.eq(~level), stuffed_seen.eq(1)]
+                        with m.If(nbyte == n + 1):
+                            m.d.usb_io += stuff_at_end.eq(1)
+                with m.Elif(nbyte == n + 1):
+                    m.d.usb_io += [st.eq(SE0A), se0.eq(1)]
+                with m.Else():
+                    m.d.usb_io += [level.eq(Mux(stream_bit, level, ~level)), ones.eq(Mux(stream_bit, ones + 1, 0)),
+                                   nbit.eq(nbit + 1)]
+                    with m.If(nbit == 7):
+                        m.d.usb_io += nbyte.eq(nbyte + 1)
+            with m.Elif(st == SE0A):
+                m.d.usb_io += [st.eq(SE0B), cyc.eq(Mux(odd, Mux(self.dlong, 5, 3), 4))]
+                with m.If(odd):
+                    m.d.usb_io += [used_short.eq(~self.dlong), used_long.eq(self.dlong)]
+            with m.Else():
+                m.d.usb_io += [st.eq(DONE), se0.eq(0), level.eq(1)]
+        with m.Else():
+            m.d.usb_io += cyc.eq(cyc - 1)
+        with m.If((st == DONE) & (fin != self.deadline + 1)):
+            m.d.usb_io += fin.eq(fin + 1)
+        # ---- UTMI monitor (usb domain: everything is seen at usb clock edges only)
+        got = Signal(range(n + 2))
+        prev_active = Signal()
+        rises = Signal(2)
+        falls = Signal(2)
+        err_in_pkt = Signal()
+        err_seen = Signal()
+        exp = Signal(8)
+        with m.Switch(got):
+            for i in range(n):
+                with m.Case(i):
+                    m.d.comb += exp.eq(self.data[i])
+        rise = d.rx_active & ~prev_active
+        fall = ~d.rx_active & prev_active
+        m.d.usb += prev_active.eq(d.rx_active)
+        with m.If(d.rx_valid & (got != n + 1)):
+            m.d.usb += got.eq(got + 1)
+        with m.If(rise & (rises != 3)):
+            m.d.usb += rises.eq(rises + 1)
+        with m.If(fall & (falls != 3)):
+            m.d.usb += falls.eq(falls + 1)
+        with m.If(d.rx_error):
+            m.d.usb += err_seen.eq(1)
+            with m.If(d.rx_active):
+                m.d.usb += err_in_pkt.eq(1)
+        delivered = Signal()
+        at_deadline = Signal()
+        m.d.comb += [
+            delivered.eq((falls + fall == 1) & (rises == 1) & (got == n) & ~d.rx_active),
+            at_deadline.eq(fin == self.deadline),
+            self.v["byte_value"].eq(d.rx_valid & ((got >= n) | (d.rx_data != exp))),
+            self.v["byte_count"].eq(fall & (got != n)),
+            self.v["valid_outside_active"].eq(d.rx_valid & ~d.rx_active),
+            self.v["active_before_packet"].eq(d.rx_active & (st == IDLE)),
+            self.v["active_twice"].eq(rise & (rises != 0)),
+            self.v["active_falls_before_eop"].eq(fall & (st == DATA)),
+            self.v["delivered_by_deadline"].eq(at_deadline & ~delivered),
+            self.v["false_error"].eq(err_in_pkt),
+            self.v["stuff_error_reported"].eq(at_deadline & corrupted & ~err_seen),
+            self.c["delivered"].eq(delivered),
+            self.c["stuffed_bit"].eq(delivered & stuffed_seen),
+            self.c["stuff_at_packet_end"].eq(delivered & stuff_at_end),
+            self.c["ff_byte"].eq(delivered & (self.data[n - 1] == 0xFF)),
+            self.c["short_cell"].eq(delivered & used_short),
+            self.c["long_cell"].eq(delivered & used_long),
+            self.c["stuff_error_reported"].eq(corrupted & err_seen),
+            # the longest packet the bound admits (every possible stuffed bit, a five-cycle cell, the latest start) still
+            # reaches the step in which delivered_by_deadline / stuff_error_reported are evaluated
+            self.c["deadline_worst_case"].eq(at_deadline & (stuffs == self.max_stuffs(n)) & used_long & (self.sphase == 3)),
+        ]
+        self.obs("env_st", st)
+        self.obs("env_cell", cell)
+        line = Signal(2)
+        m.d.comb += line.eq(Cat(io.d_n.i, io.d_p.i))
+        self.obs("line", line)
+        self.obs("rx_active", d.rx_active)
+        self.obs("rx_valid", d.rx_valid)
+        self.obs("rx_data", d.rx_data)
+        self.obs("rx_error", d.rx_error)
+        self.obs("got", got)
+        return m
+
+    @staticmethod
+    def max_stuffs(n):
+        # a PID ends in at most four 1s (its high nibble is the complement of the low one); then 8 (n - 1) data bits
+        return (4 + 8 * (n - 1)) // 6
+
+    @classmethod
+    def depth(cls, n, deadline=24):
+        cells = 8 + 8 * n + cls.max_stuffs(n) + 2
+        return cls.BASE + 3 + 1 + 4 * cells + 1 + deadline + 3
+
+    def stimulus(self, rng, t, consts):
+        return dict(consts)
+
+    def const_stimulus(self, rng):
+        out = {f"byte{i}": rng.choice([0xFF, 0xFC, 0x00, 0x7E, 0x3F, rng.randrange(256)]) for i in range(self.n)}
+        out["byte0"] = rng.choice([0xC3, 0x4B, 0xD2, 0x5A, 0x1E, 0x0F, 0xE1, 0x2D])
+        out["sphase"] = rng.randrange(4)
+        out["dcell"] = rng.randrange(64)
+        out["dlong"] = rng.randrange(2)
+        if self.corrupt:
+            out["bad_stuff"] = rng.randrange(2)
+        return out
+
+
 class CtrlHarness4(CtrlHarness):
     """same harness with the real 4:1 clock ratio (usb ticks on every 4th usb_io edge)"""
     clocks = {"usb_io": (1, 0), "usb": (4, 0)}
@@ -248,7 +444,7 @@ def queries(tier):
             Query("cosim_ctrl", f, 0, kind="cosim", cosim_cycles=200),
             Query("cosim_ctrl_4to1", lambda: CtrlHarness4(), 0, kind="cosim", cosim_cycles=400),
             Query("bmc_ctrl_4to1", lambda: CtrlHarness4(), 24, timeout=900, covers=[],
-                  desc="control clauses with the real 4:1 usb_io:usb clock ratio")] + tx_queries(tier)
+                  desc="control clauses with the real 4:1 usb_io:usb clock ratio")] + tx_queries(tier) + rx_queries(tier)
 
 
 def tx_queries(tier):
@@ -265,4 +461,37 @@ def tx_queries(tier):
                         desc=f"transmit encoding: 1..4 symbolic bytes, usb clock phase {ph} of 4 relative to the bit strobe, "
                              "producer starts at once"))
         qs.append(Query(f"cosim_tx_phase{ph}", f, 0, kind="cosim", cosim_cycles=260))
+    return qs
+
+
+RX_ASSERTS = ["byte_value", "byte_count", "valid_outside_active", "active_before_packet", "active_twice",
+              "active_falls_before_eop", "delivered_by_deadline", "false_error"]
+RX_COVERS = ["delivered", "stuffed_bit", "stuff_at_packet_end", "ff_byte", "short_cell", "long_cell", "deadline_worst_case"]
+
+
+def rx_queries(tier):
+    qs = []
+    for n in ([2] if tier == "quick" else [2, 3]):
+        K = RxLineHarness.depth(n)
+        f = (lambda n=n: RxLineHarness(n, False))
+        fb = (lambda n=n: RxLineHarness(n, True))
+        last = f"byte{n - 1}"
+        worst = {"byte0": 0xF0, "sphase": 3, "dlong": 1, "dcell": 3}
+        worst.update({f"byte{i}": 0xFF for i in range(1, n)})
+        hints = {"*": {"byte0": 0xC3}, "stuffed_bit": {"byte0": 0xC3, last: 0xFF}, "ff_byte": {"byte0": 0xC3, last: 0xFF},
+                 "stuff_at_packet_end": {"byte0": 0xC3, last: 0xFC}, "short_cell": {"byte0": 0xC3, "dlong": 0, "dcell": 12},
+                 "long_cell": {"byte0": 0xC3, "dlong": 1, "dcell": 12}, "deadline_worst_case": worst}
+        qs.append(Query(f"bmc_rx_n{n}", f, K, asserts=RX_ASSERTS, covers=RX_COVERS, hints=hints, timeout=2400, split=False,
+                        tactic="portfolio",
+                        desc=f"receive decoding: one packet of {n} symbolic bytes (PID first) from the reference encoder, every "
+                             "start phase, at most one 3- or 5-cycle bit cell anywhere in the packet"))
+        bworst = dict(worst, bad_stuff=1)
+        qs.append(Query(f"bmc_rx_badstuff_n{n}", fb, K, asserts=["stuff_error_reported"],
+                        covers=["stuff_error_reported", "deadline_worst_case"],
+                        hints={"stuff_error_reported": {"byte0": 0xC3, last: 0xFF, "bad_stuff": 0}, "deadline_worst_case": bworst},
+                        timeout=2400, split=False, tactic="portfolio",
+                        desc=f"bit-stuffing violation: one stuffed bit of a {n}-byte packet is sent as a seventh 1; rx_error must "
+                             "be seen at a usb clock edge before the delivery deadline"))
+        qs.append(Query(f"cosim_rx_n{n}", f, 0, kind="cosim", cosim_cycles=K))
+        qs.append(Query(f"cosim_rx_badstuff_n{n}", fb, 0, kind="cosim", cosim_cycles=K))
     return qs
